@@ -659,7 +659,8 @@ func (w *asWorld) exec(line string) string {
 	case "fin":
 		w.l1Final = u(ws[1])
 		return "ok"
-	case "l2blk": // l2blk <num> <tok>*   tok = b:<metalen>:<seed> | c:<metalen>:<seed>:<m|rN>:<deposit>:<l1leaf>
+	case "l2blk", "l2blk!": // l2blk! = a statement fault on the first bridge-row insert of the first attempt, then the retry
+		// l2blk <num> <tok>*   tok = b:<metalen>:<seed> | c:<metalen>:<seed>:<m|rN>:<deposit>:<l1leaf>
 		bn := u(ws[1])
 		blk := sync.Block{Num: bn, Hash: common.BigToHash(new(big.Int).SetUint64(bn + 77))}
 		var evs []asL2Ev
@@ -690,7 +691,21 @@ func (w *asWorld) exec(line string) string {
 				blk.Events = append(blk.Events, bridgesync.Event{Claim: &cp})
 			}
 		}
-		if err := w.l2.ProcessBlock(ctx, blk); err != nil {
+		if ws[0] == "l2blk!" {
+			ctl, err := openCtl(filepath.Join(w.dir, "l2.sqlite"))
+			must(err)
+			_, err = ctl.Exec(`CREATE TRIGGER verif_l2f BEFORE INSERT ON bridge BEGIN SELECT RAISE(ABORT,'verif fault'); END;`)
+			must(err)
+			err1 := w.l2.ProcessBlock(ctx, blk)
+			_, err = ctl.Exec(`DROP TRIGGER verif_l2f`)
+			must(err)
+			ctl.Close()
+			if err1 == nil {
+				w.r.Count("l2fault:not-reported")
+			} else if err := w.l2.ProcessBlock(ctx, blk); err != nil { // the driver retries the block
+				return "err"
+			}
+		} else if err := w.l2.ProcessBlock(ctx, blk); err != nil {
 			return "err"
 		}
 		w.l2Blocks[bn] = evs
@@ -724,13 +739,44 @@ func (w *asWorld) exec(line string) string {
 			os.Remove(w.storePath + sfx)
 		}
 		return "ok"
+	case "forge": // the node's last record is replaced by one of a certificate the Agglayer has never seen (node down)
+		if w.node != nil {
+			return "running"
+		}
+		w.openStorage()
+		hs, err := w.storage.GetCertificateHeadersByStatus(nil)
+		if err != nil || len(hs) == 0 {
+			return "ok rows=" + w.rowsDump()
+		}
+		l := hs[len(hs)-1]
+		ctl, err := openCtl(w.storePath)
+		must(err)
+		_, err = ctl.Exec(`UPDATE certificate_info SET certificate_id = $1 WHERE height = $2`,
+			idHash(9000000+l.CertificateID.Big().Uint64()).Hex(), l.Height)
+		must(err)
+		ctl.Close()
+		return "ok rows=" + w.rowsDump()
 	case "restart":
 		if w.node != nil {
 			return "already"
 		}
 		w.sinceRestart = true
 		callFails := w.agg.failRec
+		var preLast *aggsendertypes.CertificateHeader
+		w.openStorage()
+		if hs, err := w.storage.GetCertificateHeadersByStatus(nil); err == nil && len(hs) > 0 {
+			preLast = hs[len(hs)-1]
+		}
 		res := w.restart()
+		if res == "up" && preLast != nil && len(w.agg.certs) > 0 {
+			id := preLast.CertificateID.Big().Uint64()
+			last := w.agg.certs[len(w.agg.certs)-1]
+			unknown := id == 0 || id > uint64(len(w.agg.certs))
+			w.r.Evals++
+			if unknown && last.req.Height == preLast.Height && preLast.Status != agglayertypes.InError {
+				w.fail(fmt.Sprintf("[C13] start-up proceeded although the node's last record (certificate %d at height %d, %s) is unknown to the Agglayer, which holds certificate %d at that height", id, preLast.Height, preLast.Status, last.id))
+			}
+		}
 		w.agg.failRec, w.agg.failHdr = false, false
 		if res == "refused" {
 			w.checkRefusal(callFails)
@@ -775,6 +821,14 @@ func (w *asWorld) exec(line string) string {
 			c := w.agg.certs[len(w.agg.certs)-1]
 			out += " " + w.describeSubmission(c)
 			w.checkSubmission(c)
+			if !crashed && w.node != nil && w.storage != nil {
+				// the submission is on record (the generator injects only transient write faults)
+				if hs, err := w.storage.GetCertificateHeadersByStatus(nil); err == nil {
+					if len(hs) == 0 || hs[len(hs)-1].CertificateID != idHash(c.id) {
+						w.fail(fmt.Sprintf("[C02,C13] certificate %d was submitted but the node's records do not end with it (rows %s): the next tick will submit again while it is undecided", c.id, w.rowsDump()))
+					}
+				}
+			}
 		} else {
 			out += " nosub"
 			if !crashed && w.node != nil {
